@@ -863,6 +863,7 @@ class Explorer:
         r'(?:std|core)::bool::<impl bool>::(then|then_some)|'
         r'std::cmp::Ordering::(is_gt|is_lt|is_ge|is_le|is_eq|is_ne|reverse|then|then_with)|'
         r'std::cmp::(PartialOrd|Ord)::(partial_cmp|cmp)|<f(32|64) as std::cmp::PartialOrd>::partial_cmp|'
+        r'std::cmp::impls::<impl std::cmp::(?:PartialOrd|Ord) for \w+>::(partial_cmp|cmp)|'
         r'std::array::<impl \[T; N\]>::map)$')
     SCALAR_TYS = ('F', 'T', 'f32', 'f64', 'i32', 'i64', 'u32', 'u64', 'usize', 'isize', 'u8')
 
@@ -1483,6 +1484,7 @@ IMPLICIT_BRANCH = re.compile(
     r'^(std::option::Option::<T>::(map|map_or|map_or_else|and_then|is_some_and|is_none_or|filter|or_else|unwrap_or_else|or|and|zip|unwrap_or|xor)|'
     r'(?:std|core)::bool::<impl bool>::(then|then_some)|std::cmp::Ordering::(is_gt|is_lt|is_ge|is_le|is_eq|is_ne|reverse|then|then_with)|'
     r'std::cmp::(PartialOrd|Ord)::(partial_cmp|cmp)|<f(32|64) as std::cmp::PartialOrd>::partial_cmp|'
+    r'std::cmp::impls::<impl std::cmp::(?:PartialOrd|Ord) for \w+>::(partial_cmp|cmp)|'
     r'<std::option::Option<T> as std::ops::Try>::branch|std::array::<impl \[T; N\]>::map)$')
 
 
